@@ -40,15 +40,14 @@ REQUIRED_THEOREMS = ["Gv.Props.C09." + n for n in [
     "index_maps_in_range", "sw_rows_denote_local_alignment", "enum_complete", "enum_optimal",
     "gotoh_upper_bound", "gotoh_attained", "gotoh_eq_enum", "sw_score_is_optimum",
     "sw_score_of_returned_rows", "sw_optimal", "sw_score_attained", "sw_never_panics"]]
-PARTIAL = ["sw_optimal, sw_score_is_optimum, sw_score_of_returned_rows are theorems about the REPAIRED aligner (model variant "
-           "fixed=true, proposed_fixes/c09-aligner.diff); for the aligner as shipped they are false (counter-examples in "
-           "Props/C09.lean; known findings) and only the validity theorems apply",
+PARTIAL = ["sw_optimal, sw_score_is_optimum, sw_score_of_returned_rows and sw_never_panics are theorems about the aligner AS "
+           "REPAIRED in /repo (fix: commits d8d81b3 borders, d914816 matrix choice; the harness reports which variant "
+           "the working tree holds and the model follows it); for the aligner as first shipped they were false (counter-examples kept in Props/C09.lean)",
            "`the input sequences are left unmodified` is established by observation on every generated case (the harness "
-           "compares the caller's Sequence objects before and after), not by a theorem: the T3 mutation-facts extractor "
-           "planned in DESIGN.md does not exist",
-           "sw_never_panics (no index out of range, for all inputs) is a theorem about the repaired aligner; for the aligner "
-           "as shipped the model returns `panic` exactly where the Go code indexes out of range (empty sequences: known "
-           "finding sw-empty-panic), which is tied to the code by correspondence only"]
+           "compares the caller's Sequence objects before and after) and by the C19 mutation facts / purity runs, not by a "
+           "theorem of this module",
+           "the built-in matrices are proved equal to BLOSUM62 / DNAfull as published (blosum62_is_published, "
+           "dnafull_is_published); the published tables in Spec/Matrices.lean are entered by hand"]
 TRUSTED = ["float64 arithmetic of aligner.go is exact on dyadic scores (DyadicScheme); generators only produce such scores"]
 ASSUMPTIONS = ["scores are integer multiples of 1/den, den a power of two, (|s1|+|s2|+2)*max|score| < 2^52",
                "residues are printable ASCII; a returned error (foreign residue, incompatible alphabets, empty sequence in the "
